@@ -644,7 +644,9 @@ class ExecMixin:
         def for_dispatch(hs, run_body, exit_loop):
             kk = Val.i(hs.locals[kname].t)
             hs.assume(kk >= 0)
-            n = self.list_len(hs, seq.t)
+            # the ghost key sequence of a dict / set iteration is immutable: its length is the one fixed at loop entry
+            # (read from the heap it would be havocked with every other fresh list by the loop cut)
+            n = seq.meta[2] if seq.meta and seq.meta[0] == "keyseq" else self.list_len(hs, seq.t)
             cond = start + kk < n
 
             def enter(bst):
